@@ -30,6 +30,14 @@ def main():
             return mod.replay(ctx, body)
         return mod.run(ctx)
     except h5vlib.Infra as e:
+        if h5vlib.VIOLATIONS_REPORTED > 0 and not replay:
+            # violations of the real code were already reported (with replay files); a step that comes after the verdict
+            # (a self-test that needs an accepted case, a coverage statistic) could not run - the verdict stands
+            print("NOTE after the verdict: %s" % e, flush=True)
+            h5vlib.write_evidence(ctx, getattr(mod, "LEVEL", "exploration"),
+                                  {"evaluations": 0, "distinct_nontrivial": 0, "rule": "the run ended after reporting violations: " + str(e)[:300],
+                                   "samples": [], "exhaustive": False}, getattr(mod, "ASSUME", []), h5vlib.VIOLATIONS_REPORTED)
+            return 1
         print("INFRA property=%s could not decide: %s" % (prop, e), flush=True)
         return 2
     except Exception:
